@@ -243,8 +243,7 @@ def run(ctx):
             case = {'map': e['file'], 'entry': e, 'gen_seed': seed, 'params': kw, 'terms': list(terms)}
             judge(ctx, doc, terms, case, sigs)
             n += 1
-            if k == 1 and len(doc.recs) < 40:
-                ctx.case(n=0, sample={'map': label, 'terms': list(terms), 'text_head': doc.text(*terms)[:400]})
+            ctx.sample({'map': label, 'terms': list(terms), 'segments': len(doc.recs), 'text_head': doc.text(*terms)[:400]})
     ctx.case(n=n, sigs=sorted(sigs))
 
 
